@@ -19,8 +19,9 @@ namespace {
 int depthOf(const Expr& e) { int d = 0; for (auto& k : e.kids) d = std::max(d, depthOf(*k)); return d + 1; }
 bool hasKind(const Expr& e, std::initializer_list<TID> ids) { for (auto id : ids) if (e.id == id) return true; for (auto& k : e.kids) if (hasKind(*k, ids)) return true; return false; }
 
-Verdict typeProp(Ctx& c) {
+Verdict typeWith(Ctx& c, bool scoping) {
   TypedGen g(c);
+  g.optReuseNames = scoping;  // binders re-declare names whose earlier scope has ended, at any depth
   g.makeContext();
   if (c.coin()) { Global a; a.name = "A1"; a.type = Ty::Logic(); g.G.globals.push_back(a); }
   const int shape = c.ipick(0, 9);  // 0-5 plain, 6-7 function definition, 8 global definition, 9 structure declaration
@@ -51,8 +52,8 @@ Verdict typeProp(Ctx& c) {
     else e = mk(TID::PUNC_STRUCT, {mkName(TID::ID_GLOBAL, "S99"), domainExpr(Ty::Set(g.randType(2)))});
   }
   std::string opName;
-  const bool doMutate = c.chance(1, 2);
-  if (doMutate) e = mutate(c, e, g.G, opName);
+  const bool doMutate = scoping ? c.chance(3, 4) : c.chance(1, 2);
+  if (doMutate) e = mutate(c, e, g.G, opName, scoping && c.chance(2, 3) ? 5 : -1);  // scoping: mostly "rename one occurrence of a local"
   const bool ascii = c.chance(1, 3);
   bool greek = false; { std::set<std::string> ns; std::function<void(const Expr&)> f = [&](const Expr& x) { if (x.id == TID::ID_LOCAL) for (unsigned char ch : x.name) greek |= ch >= 0x80; for (auto& k : x.kids) f(*k); }; f(*e); }
   PrintOpts po; po.syn = (ascii && !greek) ? Syn::ASCII : Syn::MATH;
@@ -110,10 +111,14 @@ Verdict typeProp(Ctx& c) {
   return pbt::pass();
 }
 
+Verdict typeProp(Ctx& c) { return typeWith(c, false); }
+Verdict scopingProp(Ctx& c) { return typeWith(c, true); }
+
 }  // namespace
 
 int main(int argc, char** argv) {
   std::vector<pbt::Prop> props;
   props.push_back({"verdict_and_type", typeProp, 6000, 100000, false, false, "generated + mutated expressions vs the reference typing judgment"});
+  props.push_back({"scoping", scopingProp, 3000, 50000, false, false, "expressions whose binders re-declare names of ended scopes (at any nesting depth), mostly with one occurrence of a local renamed to another local of the tree: in scope with another type, or out of scope"});
   return pbt::main(argc, argv, "C03", props);
 }
